@@ -16,7 +16,7 @@ BUDGET = {"quick": dict(cases=7), "thorough": dict(cases=250)}
 MIN_NONTRIVIAL = {"quick": 20, "thorough": 800}
 BLOB = (100, 400)
 NO_SHRINK = True          # thread failures are statistical: the failing configuration is reported as generated
-REPLAY_TRIES, REPLAY_NEED = 10, 1
+REPLAY_TRIES, REPLAY_NEED = 20, 1
 
 
 def self_evident(sig, text):
